@@ -2494,6 +2494,10 @@ impl M2Model {
         let mut collision_mesh_data = None;
         let mut physics_file_data = None;
 
+        let start_pos = reader.stream_position()?;
+        let file_end = reader.seek(SeekFrom::End(0))?;
+        reader.seek(SeekFrom::Start(start_pos))?;
+
         // Read all chunks
         loop {
             let header = match ChunkHeader::read(reader) {
@@ -2501,6 +2505,18 @@ impl M2Model {
                 Err(M2Error::Io(ref e)) if e.kind() == ErrorKind::UnexpectedEof => break,
                 Err(e) => return Err(e),
             };
+
+            // The chunk data is buffered below: it has to be in the file
+            let data_pos = reader.stream_position()?;
+            if header.size as u64 > file_end.saturating_sub(data_pos) {
+                return Err(M2Error::ParseError(format!(
+                    "{} chunk of {} bytes at offset {} exceeds file size {}",
+                    header.magic_str(),
+                    header.size,
+                    data_pos,
+                    file_end
+                )));
+            }
 
             chunks.push(header.clone());
 
